@@ -36,6 +36,7 @@ CONSTANTS Txn, NSlot, MaxVal, MaxCrash, MaxLog,
           FixLsn,       \* LSNs continue after the log truncation
           FixGcOrder,   \* recovered pages are flushed before the log is truncated
           FixRedoUpd,   \* redo replays updates unconditionally (also shrinking compensation updates)
+          FixStamp,     \* the current LSN is also stamped on the catalog's first page before the log is truncated
           Torn          \* the final log write may be torn
 
 Slot == 1..NSlot
@@ -54,12 +55,13 @@ VARIABLES pg,       \* buffered page  [lsn, s : Slot -> cell]
           db,       \* ghost: committed set of values
           nv,       \* next fresh value
           nid,      \* next engine transaction id
-          mode,     \* "run" | "redo" | "undo" | "flush" | "gc" (next recovery step)
+          mode,     \* "run" | "redo" | "undo" | "flush" | "gc" | "seed" | "done" (next recovery step)
           crashes,
           acc,      \* ghost: Acceptable set frozen at the first crash of the current recovery
-          fail      \* a recovery step hit a state the code panics on
+          fail,     \* a recovery step hit a state the code panics on
+          cat       \* LSN stamped on the first page of the table catalog (durable; -1 = never)
 
-vars == <<pg, dk, dirty, log, fl, pfl, nl, tx, lk, db, nv, nid, mode, crashes, acc, fail>>
+vars == <<pg, dk, dirty, log, fl, pfl, nl, tx, lk, db, nv, nid, mode, crashes, acc, fail, cat>>
 
 EmptyPage == [lsn |-> -1, s |-> [i \in Slot |-> E0]]
 Visible(p) == {p.s[i].v : i \in {j \in Slot : p.s[j].v # 0}}   \* a delete-marked row is still a row until the delete is applied
@@ -70,7 +72,7 @@ NewTx == [st |-> "n", ws |-> <<>>, prev |-> -1, k |-> 0, id |-> 0]
 
 Init == /\ pg = EmptyPage /\ dk = EmptyPage /\ dirty = FALSE /\ log = <<>> /\ fl = 0 /\ pfl = 0 /\ nl = 0
         /\ tx = [t \in Txn |-> NewTx] /\ lk = [i \in Slot |-> None] /\ db = {} /\ nv = 1 /\ nid = 1
-        /\ mode = "run" /\ crashes = 0 /\ acc = {} /\ fail = FALSE
+        /\ mode = "run" /\ crashes = 0 /\ acc = {} /\ fail = FALSE /\ cat = -1
 
 Room == Len(log) < MaxLog
 LogApp(t, ty, sl, v, old) == /\ log' = Append(log, Rec(nl, tx[t].id, ty, sl, v, old, tx[t].prev)) /\ nl' = nl + 1
@@ -79,7 +81,7 @@ Begin(t) == /\ mode = "run" /\ tx[t].st = "n" /\ Room
             /\ log' = Append(log, Rec(nl, nid, "B", 0, 0, 0, -1)) /\ nl' = nl + 1
             /\ tx' = [tx EXCEPT ![t] = [st |-> "a", ws |-> <<>>, prev |-> nl, k |-> 0, id |-> nid]]
             /\ nid' = nid + 1
-            /\ UNCHANGED <<pg, dk, dirty, fl, lk, db, nv, mode, crashes, acc, fail>>
+            /\ UNCHANGED <<pg, dk, dirty, fl, lk, db, nv, mode, crashes, acc, fail, cat>>
             /\ pfl' = fl        \* (a log write that has completed can no longer be torn)
 
 Insert(t) == /\ mode = "run" /\ tx[t].st = "a" /\ nv <= MaxVal /\ Room
@@ -90,7 +92,7 @@ Insert(t) == /\ mode = "run" /\ tx[t].st = "a" /\ nv <= MaxVal /\ Room
                 /\ LogApp(t, "I", i, nv, 0)
                 /\ tx' = [tx EXCEPT ![t].prev = nl, ![t].ws = Append(@, [ty |-> "I", sl |-> i, v |-> nv, old |-> 0])]
              /\ nv' = nv + 1 /\ dirty' = TRUE
-             /\ UNCHANGED <<dk, fl, db, nid, mode, crashes, acc, fail>>
+             /\ UNCHANGED <<dk, fl, db, nid, mode, crashes, acc, fail, cat>>
             /\ pfl' = fl        \* (a log write that has completed can no longer be torn)
 
 MarkDel(t, i) == /\ mode = "run" /\ tx[t].st = "a" /\ pg.s[i].v # 0 /\ ~pg.s[i].m /\ lk[i] \in {None, t} /\ Room
@@ -98,7 +100,7 @@ MarkDel(t, i) == /\ mode = "run" /\ tx[t].st = "a" /\ pg.s[i].v # 0 /\ ~pg.s[i].
                  /\ lk' = [lk EXCEPT ![i] = t]
                  /\ LogApp(t, "M", i, pg.s[i].v, 0)
                  /\ tx' = [tx EXCEPT ![t].prev = nl, ![t].ws = Append(@, [ty |-> "D", sl |-> i, v |-> pg.s[i].v, old |-> 0])]
-                 /\ dirty' = TRUE /\ UNCHANGED <<dk, fl, db, nv, nid, mode, crashes, acc, fail>>
+                 /\ dirty' = TRUE /\ UNCHANGED <<dk, fl, db, nv, nid, mode, crashes, acc, fail, cat>>
 
 (* in-place update: the row gets a fresh value *)
             /\ pfl' = fl        \* (a log write that has completed can no longer be torn)
@@ -109,12 +111,12 @@ Update(t, i) == /\ mode = "run" /\ tx[t].st = "a" /\ pg.s[i].v # 0 /\ ~pg.s[i].m
                 /\ LogApp(t, "U", i, nv, pg.s[i].v)
                 /\ tx' = [tx EXCEPT ![t].prev = nl, ![t].ws = Append(@, [ty |-> "U", sl |-> i, v |-> nv, old |-> pg.s[i].v])]
                 /\ nv' = nv + 1 /\ dirty' = TRUE
-                /\ UNCHANGED <<dk, fl, db, nid, mode, crashes, acc, fail>>
+                /\ UNCHANGED <<dk, fl, db, nid, mode, crashes, acc, fail, cat>>
             /\ pfl' = fl        \* (a log write that has completed can no longer be torn)
 
 CommitStart(t) == /\ mode = "run" /\ tx[t].st = "a"
                   /\ tx' = [tx EXCEPT ![t].st = "c", ![t].k = Len(tx[t].ws)]
-                  /\ UNCHANGED <<pg, dk, dirty, log, fl, nl, lk, db, nv, nid, mode, crashes, acc, fail>>
+                  /\ UNCHANGED <<pg, dk, dirty, log, fl, nl, lk, db, nv, nid, mode, crashes, acc, fail, cat>>
             /\ pfl' = fl        \* (a log write that has completed can no longer be torn)
 
 CommitStep(t) == /\ mode = "run" /\ tx[t].st = "c" /\ tx[t].k > 0
@@ -127,7 +129,7 @@ CommitStep(t) == /\ mode = "run" /\ tx[t].st = "c" /\ tx[t].k > 0
                            /\ dirty' = TRUE
                       ELSE /\ tx' = [tx EXCEPT ![t].k = @ - 1]
                            /\ UNCHANGED <<pg, log, nl, dirty>>
-                 /\ UNCHANGED <<dk, fl, lk, db, nv, nid, mode, crashes, acc, fail>>
+                 /\ UNCHANGED <<dk, fl, lk, db, nv, nid, mode, crashes, acc, fail, cat>>
             /\ pfl' = fl        \* (a log write that has completed can no longer be torn)
 
 Effects(t) == LET W == tx[t].ws IN
@@ -138,17 +140,17 @@ CommitLog(t) == /\ mode = "run" /\ tx[t].st = "c" /\ tx[t].k = 0 /\ Room
                 /\ LogApp(t, "C", 0, 0, 0)
                 /\ IF tx[t].ws # <<>> THEN fl' = Len(log) + 1 /\ pfl' = fl ELSE fl' = fl /\ pfl' = fl
                 /\ tx' = [tx EXCEPT ![t].st = "cl", ![t].prev = nl]
-                /\ UNCHANGED <<pg, dk, dirty, lk, db, nv, nid, mode, crashes, acc, fail>>
+                /\ UNCHANGED <<pg, dk, dirty, lk, db, nv, nid, mode, crashes, acc, fail, cat>>
 CommitRet(t) == /\ mode = "run" /\ tx[t].st = "cl"
                 /\ db' = ApplyEff(db, Effects(t))
                 /\ lk' = [i \in Slot |-> IF lk[i] = t THEN None ELSE lk[i]]
                 /\ tx' = [tx EXCEPT ![t] = NewTx]
-                /\ UNCHANGED <<pg, dk, dirty, log, fl, nl, nv, nid, mode, crashes, acc, fail>>
+                /\ UNCHANGED <<pg, dk, dirty, log, fl, nl, nv, nid, mode, crashes, acc, fail, cat>>
             /\ pfl' = fl        \* (a log write that has completed can no longer be torn)
 
 AbortStart(t) == /\ mode = "run" /\ tx[t].st = "a"
                  /\ tx' = [tx EXCEPT ![t].st = "ab", ![t].k = Len(tx[t].ws)]
-                 /\ UNCHANGED <<pg, dk, dirty, log, fl, nl, lk, db, nv, nid, mode, crashes, acc, fail>>
+                 /\ UNCHANGED <<pg, dk, dirty, log, fl, nl, lk, db, nv, nid, mode, crashes, acc, fail, cat>>
             /\ pfl' = fl        \* (a log write that has completed can no longer be torn)
 
 AbortStep(t) == /\ mode = "run" /\ tx[t].st = "ab" /\ tx[t].k > 0 /\ Room
@@ -160,28 +162,28 @@ AbortStep(t) == /\ mode = "run" /\ tx[t].st = "ab" /\ tx[t].k > 0 /\ Room
                      [] it.ty = "U" -> /\ pg' = [lsn |-> nl, s |-> [pg.s EXCEPT ![it.sl].v = it.old]]
                                        /\ LogApp(t, "U", it.sl, it.old, it.v)
                 /\ tx' = [tx EXCEPT ![t].prev = nl, ![t].k = @ - 1]
-                /\ dirty' = TRUE /\ UNCHANGED <<dk, fl, lk, db, nv, nid, mode, crashes, acc, fail>>
+                /\ dirty' = TRUE /\ UNCHANGED <<dk, fl, lk, db, nv, nid, mode, crashes, acc, fail, cat>>
             /\ pfl' = fl        \* (a log write that has completed can no longer be torn)
 
 AbortEnd(t) == /\ mode = "run" /\ tx[t].st = "ab" /\ tx[t].k = 0 /\ Room
                /\ LogApp(t, "A", 0, 0, 0)
                /\ lk' = [i \in Slot |-> IF lk[i] = t THEN None ELSE lk[i]]
                /\ tx' = [tx EXCEPT ![t] = NewTx]
-               /\ UNCHANGED <<pg, dk, dirty, fl, db, nv, nid, mode, crashes, acc, fail>>
+               /\ UNCHANGED <<pg, dk, dirty, fl, db, nv, nid, mode, crashes, acc, fail, cat>>
             /\ pfl' = fl        \* (a log write that has completed can no longer be torn)
 
 FlushLog == /\ mode = "run" /\ fl < Len(log) /\ fl' = Len(log) /\ pfl' = fl
-            /\ UNCHANGED <<pg, dk, dirty, log, nl, tx, lk, db, nv, nid, mode, crashes, acc, fail>>
+            /\ UNCHANGED <<pg, dk, dirty, log, nl, tx, lk, db, nv, nid, mode, crashes, acc, fail, cat>>
 (* eviction of the dirty page: log flush, then page write *)
 Evict == /\ mode = "run" /\ dirty
          /\ fl' = Len(log) /\ pfl' = Len(log)     \* the page write follows the completed log write: that one can no longer be torn
          /\ dk' = pg /\ dirty' = FALSE
-         /\ UNCHANGED <<pg, log, nl, tx, lk, db, nv, nid, mode, crashes, acc, fail>>
+         /\ UNCHANGED <<pg, log, nl, tx, lk, db, nv, nid, mode, crashes, acc, fail, cat>>
 Quiescent == \A t \in Txn : tx[t].st = "n"
 CkptPages == /\ mode = "run" /\ Quiescent /\ dirty
              /\ IF FixCkpt THEN fl' = Len(log) /\ pfl' = Len(log) ELSE fl' = fl /\ pfl' = fl
              /\ dk' = pg /\ dirty' = FALSE
-             /\ UNCHANGED <<pg, log, nl, tx, lk, db, nv, nid, mode, crashes, acc, fail>>
+             /\ UNCHANGED <<pg, log, nl, tx, lk, db, nv, nid, mode, crashes, acc, fail, cat>>
 
 (* ---------- crash and recovery ------------------------------------------------------------ *)
 Inflight == {t \in Txn : tx[t].st \in {"c", "cl"}}
@@ -197,7 +199,7 @@ Crash == /\ crashes < MaxCrash
          /\ pg' = EmptyPage /\ dirty' = FALSE
          /\ tx' = [t \in Txn |-> NewTx] /\ lk' = [i \in Slot |-> None]
          /\ mode' = "redo" /\ crashes' = crashes + 1
-         /\ UNCHANGED <<dk, nl, db, nv, nid, fail>>
+         /\ UNCHANGED <<dk, nl, db, nv, nid, fail, cat>>
 
 Apply1(p, r) ==   \* redo of one record (page-LSN guard)
   IF ~(r.ty \in {"I", "M", "D", "R", "U"}) \/ ~(p.lsn < r.lsn) THEN p
@@ -238,32 +240,39 @@ Perms(S) == {f \in [1..Cardinality(S) -> S] : \A i, j \in 1..Cardinality(S) : i 
 MaxLsnOf(lg) == IF lg = <<>> THEN -1 ELSE LET S == {lg[i].lsn : i \in DOMAIN lg} IN CHOOSE m \in S : \A x \in S : x <= m
 
 RecRedo == /\ mode = "redo" /\ pg' = RedoAll(dk, log, 1) /\ dirty' = TRUE /\ mode' = "undo"
-           /\ UNCHANGED <<dk, log, fl, pfl, nl, tx, lk, db, nv, nid, crashes, acc, fail>>
+           /\ UNCHANGED <<dk, log, fl, pfl, nl, tx, lk, db, nv, nid, crashes, acc, fail, cat>>
 (* the code walks its activeTxn map: any order of the losers *)
 RecUndo == /\ mode = "undo"
            /\ \E ord \in Perms(Losers(log)) :
                 LET u == UndoSeq([p |-> pg, ok |-> TRUE], log, ord) IN
                 /\ pg' = u.p /\ fail' = (fail \/ ~u.ok)
            /\ mode' = IF FixGcOrder THEN "flush" ELSE "gc"
-           /\ UNCHANGED <<dk, dirty, log, fl, pfl, nl, tx, lk, db, nv, nid, crashes, acc>>
+           /\ UNCHANGED <<dk, dirty, log, fl, pfl, nl, tx, lk, db, nv, nid, crashes, acc, cat>>
+Max2(a, b) == IF a > b THEN a ELSE b
+(* the greatest LSN a launch knows of: the log's, and - repaired - the stamp on the catalog's first page *)
+Greatest == Max2(MaxLsnOf(log), IF FixStamp THEN cat ELSE -1)
 RecFlush == /\ mode = "flush" /\ dk' = pg /\ dirty' = FALSE
+            /\ cat' = IF FixStamp THEN Greatest ELSE cat       \* (the catalog page is written with the other pages)
             /\ mode' = IF FixGcOrder THEN "gc" ELSE "done"
             /\ UNCHANGED <<pg, log, fl, pfl, nl, tx, lk, db, nv, nid, crashes, acc, fail>>
-(* GCLogFile, SetNextLSN(greatest + 1) and - repaired - a record pair that carries the LSN on *)
+(* GCLogFile and SetNextLSN(greatest + 1) ... *)
 RecGC == /\ mode = "gc"
-         /\ LET g == MaxLsnOf(log) IN
-            IF FixLsn THEN /\ log' = <<Rec(g + 1, 0, "B", 0, 0, 0, -1), Rec(g + 2, 0, "C", 0, 0, 0, g + 1)>>
-                           /\ nl' = g + 3 /\ fl' = 2 /\ pfl' = 2
-                      ELSE /\ log' = <<>> /\ nl' = g + 1 /\ fl' = 0 /\ pfl' = 0
-         /\ mode' = IF FixGcOrder THEN "done" ELSE "flush"
-         /\ UNCHANGED <<pg, dk, dirty, tx, lk, db, nv, nid, crashes, acc, fail>>
+         /\ log' = <<>> /\ nl' = Greatest + 1 /\ fl' = 0 /\ pfl' = 0
+         /\ mode' = IF FixLsn THEN "seed" ELSE IF FixGcOrder THEN "done" ELSE "flush"
+         /\ UNCHANGED <<pg, dk, dirty, tx, lk, db, nv, nid, crashes, acc, fail, cat>>
+(* ... and then - a separate write, a crash may fall in between - the record pair that carries the LSN on *)
+RecSeed == /\ mode = "seed"
+           /\ log' = <<Rec(nl, 0, "B", 0, 0, 0, -1), Rec(nl + 1, 0, "C", 0, 0, 0, nl)>>
+           /\ nl' = nl + 2 /\ fl' = 2 /\ pfl' = 2
+           /\ mode' = IF FixGcOrder THEN "done" ELSE "flush"
+           /\ UNCHANGED <<pg, dk, dirty, tx, lk, db, nv, nid, crashes, acc, fail, cat>>
 RecDone == /\ mode = "done" /\ mode' = "run"
            /\ db' = Visible(pg)                 \* whatever was recovered is the committed table from now on
-           /\ UNCHANGED <<pg, dk, dirty, log, fl, pfl, nl, tx, lk, nv, nid, crashes, acc, fail>>
+           /\ UNCHANGED <<pg, dk, dirty, log, fl, pfl, nl, tx, lk, nv, nid, crashes, acc, fail, cat>>
 
 Next == \/ \E t \in Txn : Begin(t) \/ Insert(t) \/ CommitStart(t) \/ CommitStep(t) \/ CommitLog(t) \/ CommitRet(t)
                           \/ AbortStart(t) \/ AbortStep(t) \/ AbortEnd(t) \/ \E i \in Slot : MarkDel(t, i) \/ Update(t, i)
-        \/ FlushLog \/ Evict \/ CkptPages \/ Crash \/ RecRedo \/ RecUndo \/ RecFlush \/ RecGC \/ RecDone
+        \/ FlushLog \/ Evict \/ CkptPages \/ Crash \/ RecRedo \/ RecUndo \/ RecFlush \/ RecGC \/ RecSeed \/ RecDone
 Spec == Init /\ [][Next]_vars
 
 --------------------------------------------------------------------------------
